@@ -343,5 +343,256 @@ theorem evalSteps_plain (env : Env) (root : Val) (steps : List Step) :
     obtain ⟨c, hc, hv⟩ := List.mem_flatMap.mp hv
     exact sel_plain env root s c (h c hc) v hv
 
+/-! ### one comparison under the other decoding -/
+
+theorem cmpHolds_lit_right (op : CmpOp) (c : Bool) (a : Val) (l : Lit) :
+    cmpHolds op true c (some a.toJnum) (some l.toVal) = cmpHolds op true c (some a) (some l.toVal) := by
+  cases op <;> simp only [cmpHolds, if_true, litEq_toJnum_lit, asNum?_toJnum]
+
+theorem cmpHolds_lit_left (op : CmpOp) (c : Bool) (a : Val) (l : Lit) :
+    cmpHolds op true c (some l.toVal) (some a.toJnum) = cmpHolds op true c (some l.toVal) (some a) := by
+  cases op <;> simp only [cmpHolds, if_true, litEq_lit_toJnum, asNum?_toJnum]
+
+theorem cmpHolds_paths (op : CmpOp) (c : Bool) (a b : Val) (ha : a.plainNums = true) (hb : b.plainNums = true) :
+    cmpHolds op false c (some a.toJnum) (some b.toJnum) = cmpHolds op false c (some a) (some b) := by
+  cases op <;> simp only [cmpHolds, Bool.false_eq_true, if_false, beq_toJnum a b ha hb, asNum?_toJnum]
+
+/-- how the value of an operand changes with the decoding: a literal does not, a path result does -/
+def opConv : Operand → Val → Val
+  | .lit _ => id
+  | .path _ => Val.toJnum
+
+theorem cmpHolds_conv (op : CmpOp) (c : Bool) (l r : Operand) (x y : Option Val)
+    (hx : ∀ v, x = some v → v.plainNums = true) (hy : ∀ v, y = some v → v.plainNums = true)
+    (hxl : ∀ lit, l = .lit lit → x = some lit.toVal) (hyl : ∀ lit, r = .lit lit → y = some lit.toVal) :
+    cmpHolds op (SpecFil.hasLitOf l r) c (x.map (opConv l)) (y.map (opConv r)) =
+      cmpHolds op (SpecFil.hasLitOf l r) c x y := by
+  cases l with
+  | lit ll =>
+    cases r with
+    | lit lr => simp only [opConv, Option.map_id_fun, id]
+    | path pr =>
+      rw [hxl ll rfl]
+      simp only [SpecFil.hasLitOf, operandIsLit, Bool.true_or, opConv, Option.map_some, id]
+      cases y with
+      | none => rfl
+      | some b => exact cmpHolds_lit_left op c b ll
+  | path pl =>
+    cases r with
+    | lit lr =>
+      rw [hyl lr rfl]
+      simp only [SpecFil.hasLitOf, operandIsLit, Bool.or_true, opConv, Option.map_some, id]
+      cases x with
+      | none => rfl
+      | some a => exact cmpHolds_lit_right op c a lr
+    | path pr =>
+      simp only [SpecFil.hasLitOf, operandIsLit, Bool.or_false, opConv]
+      cases x with
+      | none => cases y <;> cases op <;> rfl
+      | some a =>
+        cases y with
+        | none => cases op <;> rfl
+        | some b => exact cmpHolds_paths op c a b (hx a rfl) (hy b rfl)
+
+/-! ### list helpers -/
+
+theorem flatMap_congr_mem {α β : Type} {l : List α} {f g : α → List β} (h : ∀ a ∈ l, f a = g a) :
+    l.flatMap f = l.flatMap g := by
+  induction l with
+  | nil => rfl
+  | cons a l ih =>
+    simp only [List.flatMap_cons]
+    rw [h a List.mem_cons_self, ih (fun b hb => h b (List.mem_cons_of_mem _ hb))]
+
+theorem keep_map (f : Val → Val) : ∀ (ms : List Val) (bs : List Bool), keep (ms.map f) bs = (keep ms bs).map f
+  | [], bs => by cases bs <;> rfl
+  | m :: ms, [] => rfl
+  | m :: ms, b :: bs => by
+    simp only [List.map_cons, keep]
+    cases b <;> simp only [Bool.false_eq_true, if_false, if_true, List.map_cons, keep_map f ms bs]
+
+theorem all_isNone_map {α β : Type} (l : List (Option α)) (f : α → β) :
+    (l.map (Option.map f)).all (·.isNone) = l.all (·.isNone) := by
+  simp only [List.all_map]
+  congr 1
+  funext x
+  cases x <;> rfl
+
+theorem firstOf_map (o : Option (List Val)) (f : Val → Val) :
+    firstOf (o.map (·.map f)) = (firstOf o).map f := by
+  cases o with
+  | none => rfl
+  | some l => cases l <;> rfl
+
+theorem atIdx_toJnum (xs : List Val) (i : Nat) :
+    atIdx (xs.map Val.toJnum) i = (atIdx xs i).map Val.toJnum := by
+  simp only [atIdx, List.getElem?_map]
+  cases xs[i]? <;> rfl
+
+theorem lit_plain (l : Lit) : l.toVal.plainNums = true := by cases l <;> rfl
+
+theorem firstOf_mem {o : Option (List Val)} {v : Val} (h : firstOf o = some v) : ∃ l, o = some l ∧ v ∈ l := by
+  cases o with
+  | none => simp [firstOf] at h
+  | some l =>
+    cases l with
+    | nil => simp [firstOf] at h
+    | cons a t =>
+      simp only [firstOf, Option.some.injEq] at h
+      exact ⟨a :: t, rfl, by simp [h]⟩
+
+/-- the value of a function-free operand on a plain member of a plain document is plain -/
+theorem operandVal_plain (env : Env) (r : Val) (hr : r.plainNums = true) (o : Operand)
+    (ho : fnFreeOperand o = true) (m : Val) (hm : m.plainNums = true) :
+    ∀ v, SpecFil.operandVal env o r m = some v → v.plainNums = true := by
+  intro v hv
+  cases o with
+  | lit l =>
+    simp only [SpecFil.operandVal, Option.some.injEq] at hv
+    subst hv
+    exact lit_plain l
+  | path p =>
+    obtain ⟨hd, steps, fns⟩ := p
+    simp only [fnFreeOperand, fnFreePath, Bool.and_eq_true, List.isEmpty_iff] at ho
+    obtain ⟨rfl, _⟩ := ho
+    simp only [SpecFil.operandVal] at hv
+    obtain ⟨l, hl, hvl⟩ := firstOf_mem hv
+    simp only [evalPath, applyFns, Option.some.injEq] at hl
+    subst hl
+    refine evalSteps_plain env r steps _ ?_ v hvl
+    intro w hw
+    cases hd <;> simp only [List.mem_singleton] at hw <;> subst hw <;> assumption
+
+theorem selName_toJnum (kvs : List (String × Val)) (n : Name) :
+    selName (Val.toJnumKVs kvs) n = (selName kvs n).map Val.toJnum := by
+  cases n with
+  | key k =>
+    simp only [selName, lookup_toJnum]
+    cases Val.lookup k kvs <;> rfl
+  | wild => simp only [selName, toJnumKVs_eq, List.map_map]; rfl
+
+/-! ### the specification commutes with the decoding -/
+
+mutual
+theorem sel_toJnum (env : Env) (r : Val) (hr : r.plainNums = true) :
+    (s : Step) → fnFreeStep s = true → ∀ cur, cur.plainNums = true →
+      sel env s r.toJnum cur.toJnum = (sel env s r cur).map Val.toJnum
+  | .child _ k, _, cur, _ => by
+    cases cur <;> simp only [Val.toJnum, sel, List.map_nil]
+    rw [lookup_toJnum]
+    rename_i kvs _
+    cases Val.lookup k kvs <;> rfl
+  | .wild _, _, cur, _ => by simp only [sel, members_toJnum]
+  | .multi _ ns, _, cur, _ => by
+    cases cur <;> simp only [Val.toJnum, sel, List.map_nil]
+    · split
+      · simp only [List.map_flatMap, toJnumList_eq]
+      · rfl
+    · rename_i kvs _
+      simp only [List.map_flatMap]
+      exact flatMap_congr_mem (fun n _ => selName_toJnum kvs n)
+  | .union _ ss, _, cur, _ => by
+    cases cur <;> simp only [Val.toJnum, sel, List.map_nil]
+    rename_i xs _
+    simp only [List.map_flatMap, toJnumList_eq, List.length_map]
+    exact flatMap_congr_mem (fun sub _ => flatMap_congr_mem (fun i _ => atIdx_toJnum xs i))
+  | .filter _ q, h, cur, hc => by
+    simp only [fnFreeStep] at h
+    simp only [sel, isContainer_toJnum, members_toJnum]
+    split
+    · rw [verdicts_toJnum env r hr q h cur.members (plain_members hc), keep_map]
+    · rfl
+  | .desc s, h, cur, hc => by
+    simp only [fnFreeStep] at h
+    simp only [sel, containers_toJnum, List.flatMap_map, List.map_flatMap]
+    exact flatMap_congr_mem (fun c hcc => sel_toJnum env r hr s h c (plain_containers cur hc c hcc))
+
+theorem evalSteps_toJnum (env : Env) (r : Val) (hr : r.plainNums = true) :
+    (ss : List Step) → fnFreeSteps ss = true → ∀ vs : List Val, (∀ v ∈ vs, v.plainNums = true) →
+      evalSteps env ss r.toJnum (vs.map Val.toJnum) = (evalSteps env ss r vs).map Val.toJnum
+  | [], _, vs, _ => by simp only [evalSteps]
+  | s :: ss, h, vs, hv => by
+    simp only [fnFreeSteps, Bool.and_eq_true] at h
+    simp only [evalSteps, List.flatMap_map]
+    rw [flatMap_congr_mem (fun v hvv => sel_toJnum env r hr s h.1 v (hv v hvv)), ← List.map_flatMap]
+    refine evalSteps_toJnum env r hr ss h.2 _ ?_
+    intro w hw
+    obtain ⟨c, hc, hw⟩ := List.mem_flatMap.mp hw
+    exact sel_plain env r s c (hv c hc) w hw
+
+theorem verdicts_toJnum (env : Env) (r : Val) (hr : r.plainNums = true) :
+    (q : Query) → fnFreeQuery q = true → ∀ ms : List Val, (∀ m ∈ ms, m.plainNums = true) →
+      verdicts env q r.toJnum (ms.map Val.toJnum) = verdicts env q r ms
+  | .or a b, h, ms, hm => by
+    simp only [fnFreeQuery, Bool.and_eq_true] at h
+    simp only [verdicts]
+    rw [verdicts_toJnum env r hr a h.1 ms hm, verdicts_toJnum env r hr b h.2 ms hm]
+  | .and a b, h, ms, hm => by
+    simp only [fnFreeQuery, Bool.and_eq_true] at h
+    simp only [verdicts]
+    rw [verdicts_toJnum env r hr a h.1 ms hm, verdicts_toJnum env r hr b h.2 ms hm]
+  | .exist neg p, h, ms, hm => by
+    simp only [fnFreeQuery] at h
+    simp only [verdicts, List.map_map]
+    refine List.map_congr_left (fun m hmm => ?_)
+    simp only [Function.comp_apply]
+    rw [evalPath_toJnum env r hr p h m (hm m hmm), firstOf_map]
+    cases firstOf (evalPath env p r m) <;> rfl
+  | .cmp op l rr, h, ms, hm => by
+    simp only [fnFreeQuery, Bool.and_eq_true] at h
+    rw [SpecFil.verdicts_cmp_map, SpecFil.verdicts_cmp_map, List.map_map]
+    have hc : SpecFil.cornerOf env l rr r.toJnum (ms.map Val.toJnum) = SpecFil.cornerOf env l rr r ms := by
+      simp only [SpecFil.cornerOf]
+      rw [operandVals_toJnum env r hr l h.1 ms hm, operandVals_toJnum env r hr rr h.2 ms hm,
+        all_isNone_map, all_isNone_map]
+    rw [hc]
+    refine List.map_congr_left (fun m hmm => ?_)
+    simp only [Function.comp_apply]
+    rw [operandVal_toJnum env r hr l h.1 m (hm m hmm), operandVal_toJnum env r hr rr h.2 m (hm m hmm)]
+    exact cmpHolds_conv op _ l rr _ _
+      (operandVal_plain env r hr l h.1 m (hm m hmm)) (operandVal_plain env r hr rr h.2 m (hm m hmm))
+      (fun lit hl => by subst hl; rfl) (fun lit hl => by subst hl; rfl)
+  | .regex p re, h, ms, hm => by
+    simp only [fnFreeQuery] at h
+    simp only [verdicts, List.map_map]
+    refine List.map_congr_left (fun m hmm => ?_)
+    simp only [Function.comp_apply]
+    rw [evalPath_toJnum env r hr p h m (hm m hmm), firstOf_map]
+    cases firstOf (evalPath env p r m) with
+    | none => rfl
+    | some v => cases v <;> rfl
+
+theorem operandVal_toJnum (env : Env) (r : Val) (hr : r.plainNums = true) :
+    (o : Operand) → fnFreeOperand o = true → ∀ m : Val, m.plainNums = true →
+      SpecFil.operandVal env o r.toJnum m.toJnum = (SpecFil.operandVal env o r m).map (opConv o)
+  | .lit _, _, m, _ => rfl
+  | .path p, h, m, hm => by
+    simp only [fnFreeOperand] at h
+    simp only [SpecFil.operandVal, opConv]
+    rw [evalPath_toJnum env r hr p h m hm, firstOf_map]
+
+theorem operandVals_toJnum (env : Env) (r : Val) (hr : r.plainNums = true) :
+    (o : Operand) → fnFreeOperand o = true → ∀ ms : List Val, (∀ m ∈ ms, m.plainNums = true) →
+      operandVals env o r.toJnum (ms.map Val.toJnum) = (operandVals env o r ms).map (Option.map (opConv o))
+  | .lit _, _, ms, _ => by simp only [operandVals, List.map_map]; rfl
+  | .path p, h, ms, hm => by
+    simp only [fnFreeOperand] at h
+    simp only [operandVals, List.map_map, opConv]
+    refine List.map_congr_left (fun m hmm => ?_)
+    simp only [Function.comp_apply]
+    rw [evalPath_toJnum env r hr p h m (hm m hmm), firstOf_map]
+
+theorem evalPath_toJnum (env : Env) (r : Val) (hr : r.plainNums = true) :
+    (p : Path) → fnFreePath p = true → ∀ cur : Val, cur.plainNums = true →
+      evalPath env p r.toJnum cur.toJnum = (evalPath env p r cur).map (·.map Val.toJnum)
+  | .mk hd steps [], h, cur, hc => by
+    simp only [fnFreePath, List.isEmpty_nil, Bool.true_and] at h
+    simp only [evalPath, applyFns, Option.map_some]
+    cases hd
+    · exact congrArg some (evalSteps_toJnum env r hr steps h [r] (by simpa using hr))
+    · exact congrArg some (evalSteps_toJnum env r hr steps h [cur] (by simpa using hc))
+  | .mk _ _ (_ :: _), h, _, _ => by simp [fnFreePath] at h
+end
+
 end SpecJn
 end JPV
